@@ -47,8 +47,8 @@ def run_one(args):
                 shutil.copytree(s, os.path.join(d, item))
             elif os.path.exists(s):
                 shutil.copy(s, d)
-        if "patch" in m:
-            r = subprocess.run(["patch", "-p1", "-s", "-i", os.path.abspath(m["patch"])], cwd=d, capture_output=True, text=True)
+        for pf in ([m["patch"]] if "patch" in m else []) + list(m.get("patches", [])):
+            r = subprocess.run(["patch", "-p1", "-s", "-F0", "-i", os.path.abspath(pf)], cwd=d, capture_output=True, text=True)
             if r.returncode != 0:
                 return m["name"], "skipped", "patch does not apply: " + r.stdout[-200:]
         for f, old, new in m.get("edits", []):
@@ -62,6 +62,8 @@ def run_one(args):
         for p in props:
             r = subprocess.run([os.path.join(VERIF, "check"), p], env=env, capture_output=True, text=True)
             v = [l for l in r.stdout.splitlines() if l.startswith("  key") or l.startswith("  engine")]
+            if "extraction failed for features" in r.stdout:
+                return m["name"], "skipped", "variant does not compile"
             if r.returncode != 0 and "VIOLATION property=" not in r.stdout:
                 v = []
                 res[p] = (r.returncode, ["CHECK CRASHED: " + (r.stderr or r.stdout)[-200:]])
